@@ -99,6 +99,7 @@ class ImplSpec:
         self.fns = []
         self.keep_assoc = keep_assoc
         self.only_hoisted = False
+        self.extra = ""          # spec items added inside the impl block (e.g. spec fn bodies of a trait)
 
     def fn(self, name, nth=None):
         f = FnSpec(self.unit, self.file, name, impl=self.impl, nth=nth)
@@ -131,13 +132,14 @@ class Unit:
         self.fnspecs.append(f)
         return f
 
-    def impl(self, file, impl, header=None, keep_assoc=True):
+    def impl(self, file, impl, header=None, keep_assoc=True, cfg=None):
         b = ImplSpec(self, file, impl, header, keep_assoc)
+        b.cfg = cfg
         self.blocks.append(("impl", b))
         return b
 
-    def item(self, file, kind, name, prefix="", drop_fields=()):
-        self.blocks.append(("item", file, kind, name, prefix, tuple(drop_fields)))
+    def item(self, file, kind, name, prefix="", drop_fields=(), cfg=None):
+        self.blocks.append(("item", file, kind, name, prefix, tuple(drop_fields), cfg))
         return self
 
     def src(self, rel):
@@ -182,8 +184,17 @@ class Unit:
             pos += len(c.text.encode("utf-8"))
         return "".join(text), spans
 
-    def emit_item(self, file, kind, name, prefix, drop_fields):
+    def emit_item(self, file, kind, name, prefix, drop_fields, cfg=None):
         src = self.src(file)
+        saved_cfg = self.cfg
+        if cfg is not None:
+            self.cfg = cfg
+        try:
+            return self._emit_item(src, file, kind, name, prefix, drop_fields)
+        finally:
+            self.cfg = saved_cfg
+
+    def _emit_item(self, src, file, kind, name, prefix, drop_fields):
         it = src.find(kind, name)
         rw = Rewriter(src, it.start, it.end)
         toks = src.toks
@@ -210,6 +221,16 @@ class Unit:
                     e = b + 1 if toks[b].text == "," else b
                     rw.replace(a, e, "", "R2-drop-field")
                     skip.append((a, e))
+        # R6: attributes inside the item (#[error(..)], #[from], #[doc..]) are dropped
+        k2 = it.hdr_end
+        while k2 < it.end:
+            if toks[k2].text == "#" and toks[k2 + 1].text == "[":
+                e2 = src.pairs[k2 + 1] + 1
+                rw.replace(k2, e2, "", "R6-attribute")
+                skip.append((k2, e2))
+                k2 = e2
+                continue
+            k2 += 1
         if kind == "struct" and toks[it.hdr_end].text == "{":
             # R6-visibility: private fields become pub (Verus treats a struct with private fields
             # as opaque in pub contracts); visibility has no run-time meaning
@@ -228,6 +249,15 @@ class Unit:
         return out
 
     def emit_impl(self, b, canary):
+        saved_cfg = self.cfg
+        if getattr(b, "cfg", None) is not None:
+            self.cfg = b.cfg
+        try:
+            return self._emit_impl(b, canary)
+        finally:
+            self.cfg = saved_cfg
+
+    def _emit_impl(self, b, canary):
         src = self.src(b.file)
         it = src.find_impl(b.impl)
         toks = src.toks
@@ -256,6 +286,8 @@ class Unit:
             out += rw.render()
             self.rewrite_log += rw.log
             out.append(Chunk("\n", ("gen", "sep")))
+        if b.extra:
+            out.append(Chunk(b.extra + "\n", ("spec", self.name)))
         # associated non-fn items kept verbatim (type Output = ...;)
         if b.keep_assoc:
             for ch in it.children:
